@@ -38,7 +38,7 @@ def declare(reg, eng):
                  ensures=["hastype(self.type, result)"],
                  raises={"TypeError": {"when": []}, "ValueError": {"when": []}, "AssertionError": {"when": []}})
     NOCHANGE = "dict_unchanged(self.values)"
-    reg.contract("ConfigInformation.set", unreachable_ok=['raise AttributeError('], params=["self", "k", "v", "bypass"], defaults={"bypass": "False"},
+    reg.contract("ConfigInformation.set", unreachable_ok=['raise AttributeError(', 'if argument:   [never false]'], params=["self", "k", "v", "bypass"], defaults={"bypass": "False"},
                  types={"self": "ConfigInformation", "k": "str", "bypass": "bool"},
                  requires=["self.values is not self.xpmtype.arguments"],
                  ensures=[("C15", "implies(haskey(self.xpmtype.arguments, k) and not isnone(v), hastype(lookup(self.xpmtype.arguments, k).type, lookup(self.values, k)))"),
@@ -87,7 +87,7 @@ def declare(reg, eng):
     reg.contract("inspect.isfunction", params=["f"], returns="bool", modifies=[], ensures=["implies(isstr(f) or ispath(f), not result)"])
     reg.contract("ConfigWalkContext.currentpath", params=["self"], types={"self": "ConfigWalkContext"}, returns="Path", modifies=[],
                  ensures=[("C17", "result == ite(isnone(self._configpath), self.path, p_joinp(self.path, self._configpath))")])
-    reg.contract("PathGenerator.__call__", unreachable_ok=['path = context.currentpath() / self.path(context, config)  # type: Path'], params=["self", "context", "config"], types={"self": "PathGenerator", "context": "ConfigWalkContext"},
+    reg.contract("PathGenerator.__call__", unreachable_ok=['path = context.currentpath() / self.path(context, config)  # type: Path', 'if inspect.isfunction(self.path):   [never true]'], params=["self", "context", "config"], types={"self": "PathGenerator", "context": "ConfigWalkContext"},
                  returns="Path", modifies=[],
                  requires=["isstr(self.path) or ispath(self.path)"],      # the callable form delegates to user code: not claimed
                  ensures=[("C17", "result == p_joinp(ite(isnone(context._configpath), context.path, p_joinp(context.path, context._configpath)), Path(self.path))")])
